@@ -54,15 +54,25 @@ def main():
             print(f"SKIP {pid} {diff}: patch does not apply: {err.strip()[:200]}")
             continue
         t0 = time.time()
+        ev = f"{VERIF}/evidence/{pid}.json"
+        saved = open(ev).read() if os.path.exists(ev) else None
         r = subprocess.run([f"{VERIF}/bin/govc", "check", pid, "--overlay", ov, "--work", work + "/govc"], capture_output=True, text=True)
+        # the evidence directory must describe the real tree, not the mutant
+        if saved is not None:
+            open(ev, "w").write(saved)
+        elif os.path.exists(ev):
+            os.remove(ev)
         vio = [l for l in r.stdout.splitlines() if l.startswith("VIOLATION")]
+        if any("/load.json" in l for l in vio):
+            print(f"INVALID {pid} {os.path.relpath(diff, VERIF)}: the mutant does not build")
+            missed += 1
+            continue
         ok = r.returncode == 1 and any(f"property={pid} " in l for l in vio)
         print(f"{'CAUGHT' if ok else 'MISSED'} {pid} {os.path.relpath(diff, VERIF)} ({time.time()-t0:.0f}s) {vio[0] if vio else ''}")
         if not ok:
             missed += 1
             print("   " + "\n   ".join(r.stdout.splitlines()[-5:] + r.stderr.splitlines()[-5:]))
         shutil.rmtree(work, ignore_errors=True)
-    # restore evidence written by mutant runs: the evidence directory must describe the real tree
     sys.exit(1 if missed else 0)
 
 if __name__ == "__main__":
